@@ -219,6 +219,7 @@ class Instance:
     native_n: int = 8            # native run-time evaluations of the same contract in a proof instance (bounded stand-in)
     scales: tuple = (1.0,)       # input magnitudes cycled through by the native evaluations
     budget: float = None         # total solver seconds of the instance (default max(90, 6*timeout))
+    definedness: bool = True     # generate definedness obligations (False: only ensures / frame / exceptions)
     fixed_seed: bool = False     # bounded instance: ignore VERIF_SEED (used to pin a known finding to its input)
     shard_depth: int = 0         # > 0: split the path exploration over worker processes by decision prefixes of this length
 
@@ -675,7 +676,7 @@ def run_instance(inst, tier='quick', seed=0, replay_dir=None, prefix=None, first
                 hints = []
                 if out[0] == 'ok' and inst.hints:
                     hints = list(inst.hints(sp, inp, out[1]))
-                for (oname, plen, f, where) in c.oblig:
+                for (oname, plen, f, where) in (c.oblig if inst.definedness else []):
                     fl = decide(c, B, 'defined:%s@%s' % (oname, _short(where)), f, plen, hints, 'definedness')
                     if fl:
                         fails.append(fl)
